@@ -984,7 +984,7 @@ def loop_entry_node(fn, loop):
 def is_loop_control_fact(key):
     """Facts that only say 'the loop has another element' (range-for internals, iterator != end, index < size)."""
     return ("__begin" in key or "__end" in key or re.search(r"\.c?end\(\)", key) is not None or
-            re.match(r"^\(\w+ < [\w.>-]+(\.|->)size\(\)\)$", key) is not None)
+            re.match(r"^\(\w+(@\d+)? < ([\w.>-]+(\.|->)size\(\)|\w+(@\d+)?)\)$", key) is not None)
 
 
 def loop_walk(fn, loop):
